@@ -5,9 +5,10 @@
        forall e, wf e = true -> parse (write impl_rules e) = Some e.
    It is FALSE of the faithful model of the unchanged writer (theorems C02_write_refuted_...).  Proved
    instead: the statement under the syntactic side condition shape_ok (three excluded shapes),
-   for every rule set; and the full statement for the repaired writer (rules_fixed, the
-   decisions of props/C02/fix.patch).  C02_impl_status says which of the two situations the
-   writer read by translate.py is in.  Literals whose written form loses information (wf
+   for every rule set; and the full statement for any writer making the three left-operand
+   decisions (`complete`).  props/C02/fix.patch makes two of them plus the left-spine sign rule
+   (rules_patch); the third contradicts PSyclone's own test-suite.  C02_impl_status says which
+   situation the writer read by translate.py is in.  Literals whose written form loses information (wf
    requires lit_ok) are refuted separately and are not repaired by the patch. *)
 From Coq Require Import List NArith Bool String.
 Import ListNotations.
@@ -30,10 +31,19 @@ Theorem C02_parse_write_impl_partial :
 Proof. exact (parse_write_shape impl_rules). Qed.
 Print Assumptions C02_parse_write_impl_partial.
 
-(* full statement for the repaired bracket decisions *)
-Theorem C02_parse_write_fixed : forall e, wf e = true -> parse (write rules_fixed e) = Some e.
-Proof. exact parse_write_fixed. Qed.
-Print Assumptions C02_parse_write_fixed.
+(* full statement for any writer that makes the three left-operand decisions (the complete repair) *)
+Theorem C02_parse_write_complete :
+  forall R e, complete R = true -> wf e = true -> parse (write R e) = Some e.
+Proof. exact parse_write_complete. Qed.
+Print Assumptions C02_parse_write_complete.
+
+(* what props/C02/fix.patch achieves and what it leaves *)
+Theorem C02_patch_witnesses :
+  forallb (fun e => match parse (write rules_patch e) with Some t => expr_eqb t e | None => false end)
+          [w_pow; w_rel_chain; w_sign_deep; w_plus_mul] = true /\
+  refutes rules_patch w_neg_mul /\ refutes rules_patch w_not_rel.
+Proof. exact patch_witnesses. Qed.
+Print Assumptions C02_patch_witnesses.
 
 (* literals in the form the reader produces are read back unchanged *)
 Theorem C02_literal_roundtrip : forall l, lit_ok l = true -> read_lit (write_lit l) = l.
@@ -73,7 +83,7 @@ Print Assumptions C02_write_refuted_lit_signed.
 
 (* the writer in the working tree: repaired, or refuted by one of the witnesses *)
 Theorem C02_impl_status :
-  impl_rules = rules_fixed \/
+  (complete impl_rules = true /\ forall e, wf e = true -> parse (write impl_rules e) = Some e) \/
   exists e, In e [w_pow; w_neg_mul; w_not_rel; w_rel_chain] /\ refutes impl_rules e.
 Proof. exact impl_status. Qed.
 Print Assumptions C02_impl_status.
